@@ -77,6 +77,8 @@ def run(res):
                 a = 'ERR %s %d' % (type(e).__name__, e.pos)
                 if not (0 <= e.pos <= len(s)):
                     direct.append(('%s.Parser()(%r): position %d outside the input' % (M, s, e.pos), M, s))
+                if str(e) != 'Parser Error: \n\n%s\n%s^\n' % (s, ' ' * e.pos) or e.string != s:
+                    direct.append(('%s.Parser()(%r): the error does not display the input with a caret at pos %d' % (M, s, e.pos), M, s))
                 if type(e) not in (PP.UnexpectedToken, PP.UnexpectedCharacters):
                     direct.append(('%s.Parser()(%r) raised a subclass %s' % (M, s, type(e).__name__), M, s))
             except Exception as e:
